@@ -63,7 +63,12 @@ def _one(ctx, rng, knobs_fn, on_result, sched_steps, ninputs, op_weights, nprog,
     tries = 0
     while len(sess.steps) < nsteps and tries < nsteps * 4:
         tries += 1
-        st = random_step(sess, rng, op_weights)
+        prefer = (getattr(gp, "meta", None) or {}).get("prefer_ops")
+        if prefer and len(sess.steps) < 2 and rng.random() < 0.6:
+            # templates name the primitives that produce the forms they were written for
+            st = random_step(sess, rng, {o: 1.0 for o in prefer})
+        else:
+            st = random_step(sess, rng, op_weights)
         if st is None or is_unsafe_step(st) or st["op"] in ("make_instr", "extract_subproc"):
             continue
         apply_step(sess, st)
